@@ -218,6 +218,9 @@ func cmdCheck(args []string) int {
 			SolverMs: 1500, KeepPaths: 40, Seed: seed, MaxViol: 3, MaxSteps: hs.MaxSteps})
 		printResult(res, false)
 		ev.addHarness(res)
+		if res.XCheckDisagree > 0 {
+			problems = append(problems, fmt.Sprintf("%s: %d sampled queries were answered differently by another solver (encoding or solver defect)", hs.Fn, res.XCheckDisagree))
+		}
 		if res.Incomplete != "" {
 			problems = append(problems, hs.Fn+": "+res.Incomplete)
 		}
@@ -366,7 +369,7 @@ func (e *evidence) addHarness(r *ExploreResult) {
 		"ssa_steps": r.Steps, "max_decision_depth": r.MaxDepth, "witnesses_reached": r.Reached,
 		"queries": map[string]int{"total": r.Solver.Queries, "sat": r.Solver.Sat, "unsat": r.Solver.Unsat, "unknown": r.Solver.Unknown, "feasibility": r.FeasQ, "assertion": r.AssertQ},
 		"solver_time_s": r.Solver.Time.Seconds(), "slowest_query_s": r.Solver.SlowQuery.Seconds(), "wall_s": r.Wall.Seconds(),
-		"fmt_approximations": r.FmtApprox, "byte_domain_prefilter": map[string]int{"sat": r.LocalSat, "unsat": r.LocalUnsat}, "standalone_portfolio": map[string]interface{}{"queries": r.StandaloneQ, "decided": r.StandaloneOK, "time_s": r.StandaloneT.Seconds(), "solvers": "z3 4.8.12, z3 5.1.0, cvc5 1.0"}, "incomplete": r.Incomplete, "violations_found": len(r.Violations),
+		"fmt_approximations": r.FmtApprox, "byte_domain_prefilter": map[string]int{"sat": r.LocalSat, "unsat": r.LocalUnsat}, "standalone_portfolio": map[string]interface{}{"queries": r.StandaloneQ, "decided": r.StandaloneOK, "time_s": r.StandaloneT.Seconds(), "solvers": "z3 4.8.12, z3 5.1.0, cvc5 1.0"}, "solver_cross_check": map[string]int{"sampled": r.XCheckN, "agreed": r.XCheckAgree, "disagreed": r.XCheckDisagree, "undecided_by_the_others": r.XCheckUndecided}, "incomplete": r.Incomplete, "violations_found": len(r.Violations),
 	})
 }
 
@@ -396,7 +399,7 @@ func (e *evidence) write() {
 	cov["harnesses"] = e.harnesses
 	cov["queries_discharged"] = e.Queries
 	cov["solver_time_s"] = e.SolverS
-	cov["solver"] = "z3 4.8.12 (one incremental process per worker, (set-logic ALL))"
+	cov["solver"] = envDefault("SYMX_SOLVER", "z3-new") + " (z3 5.1.0 unless overridden; one incremental process per worker, assertion stack mirrors the path condition; undecided queries go to a stand-alone portfolio of z3 4.8.12, z3 5.1.0 and cvc5 1.0)"
 	cov["bounds"] = e.spec.Bounds[e.Tier]
 	cov["stubs"] = e.spec.Stubs
 	cov["outside_claim"] = e.spec.Outside
